@@ -72,7 +72,15 @@ func VH_C19_layer() {
 			delete(ref, vhC19K(b, k))
 		} else {
 			v := vhC19Val("v")
-			sym.Assert(bk.Set(vhC19Keys[k], v) == nil, "Set succeeds")
+			// the caller passes a scratch buffer and reuses it afterwards: the store must hold its own copy
+			buf := append([]byte(nil), v...)
+			if v == nil {
+				buf = nil
+			}
+			sym.Assert(bk.Set(vhC19Keys[k], buf) == nil, "Set succeeds")
+			for i := range buf {
+				buf[i] ^= 0xa5
+			}
 			ref[vhC19K(b, k)] = v
 		}
 	}
